@@ -124,7 +124,8 @@ def trim_rules(ctx, w, S, R, T):
     ctx.floor("D1", 4, "trim obligations")
 
     ctx.rule("D5", "the trim is called only by the buffer's gc; the buffer's gc only by Terminal::gc; Terminal::gc only by the Vt entry points")
-    for callee, allowed in ((T.trim_fn, {T.buf_gc}), (T.buf_gc, {T.term_gc}), (T.term_gc, {WD.VT_FEED_STR, WD.VT_RESIZE})):
+    hosts = {shared.Epilogue(w, S, a).host for a in (WD.VT_FEED_STR, WD.VT_RESIZE)} - {None}
+    for callee, allowed in ((T.trim_fn, {T.buf_gc}), (T.buf_gc, {T.term_gc}), (T.term_gc, {WD.VT_FEED_STR, WD.VT_RESIZE} | hosts)):
         if callee == T.buf_gc and T.trim_fn == T.buf_gc:
             continue
         for c2 in E.callers_of(callee):
@@ -219,23 +220,18 @@ def stream_rules(ctx, w, S, R, T):
     E = w.E
     ctx.rule("D3", "Changes.scrollback is Terminal::gc's iterator unchanged; the collector feeds every element to the unwrapper, and flush() appends lines() and then the carry-over")
     for api in (WD.VT_FEED_STR, WD.VT_RESIZE):
-        vb = w.body(api)
-        TT = w.terms(api)
-        found = False
-        for bl in vb.normal_blocks():
-            for i, s in enumerate(vb.blocks[bl]["stmts"]):
-                if s["k"] == "assign" and s["rv"]["k"] == "aggregate" and s["rv"].get("adt") == "vt::Changes":
-                    names = s["rv"]["field_names"]
-                    t = WD.strip_names(TT.operand(s["rv"]["ops"][names.index("scrollback")], (bl, i)))
-                    found = True
-                    # allow the unsizing cast Box<impl> -> Box<dyn>
-                    while t[0] == "cast":
-                        t = t[1]
-                    ctx.check(t[0] == "call" and t[1] == T.term_gc, "D3", api + ":scrollback", "Changes.scrollback of %s is %s, not the gc iterator" % (api, w.tstr(api, t)), loc=w.stmt_loc(api, (bl, i)),
-                              sample={"api": api, "scrollback": w.tstr(api, t)})
-        sites = [cs for cs in E.call_sites(api) if cs.callee == T.term_gc]
-        ok = len(sites) == 1 and vb.every_path_to_return_hits((0, 0), {sites[0].point}, include_start=True)
-        ctx.check(ok and found, "D3", api + ":gc", "%s does not run the gc on every path" % api, loc=w.fn_loc(api))
+        ep = shared.Epilogue(w, S, api)
+        agg = ep.changes_aggregate()
+        if agg is None:
+            ctx.violation("D3", api + ":scrollback", "%s does not build a vt::Changes value" % api, loc=w.fn_loc(api))
+        else:
+            hfn, hpt, flds = agg
+            t = WD.strip_names(flds.get("scrollback"))
+            while t[0] == "cast":
+                t = t[1]
+            ctx.check(t[0] == "call" and t[1] == T.term_gc, "D3", api + ":scrollback", "Changes.scrollback of %s is %s, not the gc iterator" % (api, w.tstr(hfn, t)), loc=w.stmt_loc(hfn, hpt),
+                      sample={"api": api, "scrollback": w.tstr(hfn, t)})
+        ctx.check(ep.on_every_path(T.term_gc) and ep.returned_unchanged(), "D3", api + ":gc", "%s does not run the gc on every path" % api, loc=w.fn_loc(api))
     # TextCollector
     for fn in ("util::TextCollector::feed_str", "util::TextCollector::resize"):
         if fn not in w.bodies:
